@@ -34,7 +34,9 @@ import json
 import multiprocessing
 import os
 import pickle
+import signal
 import subprocess
+import threading
 import sys
 import time
 import traceback
@@ -108,6 +110,13 @@ def digest_of(obj):
 
 # ------------------------------------------------------------------ one run
 
+class RunTimeout(BaseException):
+    """a call into the code under test did not return within RUN_WALL_CAP_S of wall-clock time"""
+
+
+RUN_WALL_CAP_S = int(os.environ.get("VERIF_RUN_WALL_CAP_S", "100"))
+
+
 def run_once(mod, plan, sched):
     """execute (plan, sched tape list or Tape) -> ("ok", info) | ("viol", sig, msg, tape)"""
     tape = sched if isinstance(sched, Tape) else Tape(replay=sched)
@@ -117,12 +126,30 @@ def run_once(mod, plan, sched):
         # finalisers of simulated streams must never run at an allocation-dependent
         # moment inside a run: collect only between runs (when every primitive is a no-op)
         gc.disable()
+    # bounded liveness of plain library calls: a run is milliseconds to a few seconds of work; one
+    # that is still going after RUN_WALL_CAP_S (a loop that never ends) is reported, not waited for
+    armed = False
+    if threading.current_thread() is threading.main_thread():
+        def on_alarm(signum, frame):
+            raise RunTimeout()
+        try:
+            signal.signal(signal.SIGALRM, on_alarm)
+            signal.alarm(RUN_WALL_CAP_S)
+            armed = True
+        except (ValueError, OSError):
+            armed = False
     try:
         info = mod.execute(plan, tape)
         return ("ok", info, tape.recorded())
     except Violation as v:
         return ("viol", v.sig, v.msg, tape.recorded())
+    except RunTimeout:
+        return ("viol", "%s:call-never-returned" % mod.ID,
+                "the run did not finish within %d s of wall-clock time (a call into pySMT never returned)" % RUN_WALL_CAP_S,
+                tape.recorded())
     finally:
+        if armed:
+            signal.alarm(0)
         if gc_control:
             gc.collect()
             gc.enable()
@@ -468,7 +495,7 @@ def sweep(pid, tier, base_seed, runs=None, jobs=None, budget_s=None, write_evide
     tasks = []
     k = 0
     while k < runs:
-        tasks.append((pid, base_seed, k, min(runs, k + batch), cfg, cfg.get("batch_wall_cap", 300)))
+        tasks.append((pid, base_seed, k, min(runs, k + batch), cfg, cfg.get("batch_wall_cap", 1500)))
         k += batch
 
     total = {"runs": 0, "nontrivial": 0, "digests": set(), "probes": {}, "faults": {},
@@ -492,8 +519,9 @@ def sweep(pid, tier, base_seed, runs=None, jobs=None, budget_s=None, write_evide
                 done, pending = wait(pending, timeout=5, return_when=FIRST_COMPLETED)
                 for fu in done:
                     agg = fu.result()
-                    if agg["err"]:
+                    if agg.get("err"):
                         err = agg["err"]
+                        break
                     total["runs"] += agg["runs"]
                     total["nontrivial"] += agg["nontrivial"]
                     total["digests"] |= agg["digests"]
@@ -512,6 +540,11 @@ def sweep(pid, tier, base_seed, runs=None, jobs=None, budget_s=None, write_evide
                     break
                 over = time.time() - t0 > budget_s
                 if over:
+                    stopped_early = True
+                if os.environ.get("VERIF_STOP_AT_FIRST") == "1" and any("plan" in v for v in total["viol"]) \
+                        and any(v["sig"] not in known_open(pid) for v in total["viol"]):
+                    # (sensitivity runs only: one reproducible violation is all that is asked for)
+                    over = True
                     stopped_early = True
                 while not over and len(pending) < jobs * 2:
                     t = next(it, None)
